@@ -7,7 +7,7 @@ def run(tier, seed):
         nontrivial=lambda c, e, o: any(a[0] == "w" for acts, _ in o for a in acts),
         rule="non-trivial = distinct schedule in which the implementation wrote a response")
     upload_handler_call_cases(res)
-    res.rule += " | plus upload handlers whose call ends before an awaitable exists (raises / returns a response object), with and without a chain, judged by Spec.C01.ok"
+    res.rule += " | plus a fixed battery of upload handlers whose call ends before an awaitable exists (raises / returns a response object), with and without a chain: compared with the model and judged by Spec.C01.ok"
     # over real TLS (start_server in its own process, both backends): a multi-megabyte response to a reader that starts late
     # arrives whole and ends cleanly - no half-written response
     import livetls
@@ -20,13 +20,13 @@ def run(tier, seed):
 
 def upload_handler_call_cases(res):
     """ "whatever the ... upload handler does (return, raise, or complete later)": an upload handler may fail, or return, before it
-    has produced an awaitable.  Outside the transition model (the model's upload handler always yields a task): the real protocol is
-    driven and the implementation's observations are judged by the Coq monitor, with a virtual completion event telling the monitor
-    that the handler's invocation is over (it raised)."""
-    import asyncio
+    has produced an awaitable.  Inside the transition model since DESIGN 11.26 (Section variable up_call_fails; action AUploadCall):
+    the real protocol is driven, its observations are compared with the extracted model's AND judged by the Coq monitor.  (The
+    seeded generator of servergen produces such configurations too; this is the fixed battery: both misbehaviours, several
+    messages, with / without a chain, four segmentations.)"""
     line = b"titan://h.example/f.gmi;size=5;mime=text/gemini\r\n"
     cases = []
-    for up_sync in ("raise", "value"):
+    for up_sync in ("raise", "value", ("raise", ""), ("raise", "multi\nline \u00e9"), ("raise", "m" * 1200)):
         for has_mw in (False, True):
             for reads in ([line + b"hello"], [line, b"hello"], [line + b"he", b"llo"], [line + b"hello", b"trailing"]):
                 cfg = {"has_mw": has_mw, "has_upload": True, "peer_ip": "192.0.2.1", "fp": False, "hres": ("value", sg.GOOD), "up_sync": up_sync}
@@ -34,24 +34,19 @@ def upload_handler_call_cases(res):
                 if has_mw: evs.append(("done", 0, ("mw", True, None)))
                 if reads[-1] == b"trailing": evs.append(("read", [b"trailing"]))
                 cases.append((cfg, evs))
-    async def go():
-        out = []
-        for cfg, evs in cases:
-            urlimpl_calls = sd.urlimpl._calls; del urlimpl_calls[:]
-            obs, delay, calls, seen = await sd.run_schedule(cfg, evs)
-            out.append((obs, [[h, [] if m is None else [m]] for h, m in calls], seen))
-        return out
-    mc, meta = [], []
-    for (cfg, evs), (obs, tb, seen) in zip(cases, asyncio.run(go())):
-        up_ids = [a[1] for acts, _ in obs for a in acts if a[0] == "up"]
-        evs2, obs2 = list(evs), [[a, ar] for a, ar in obs]
-        for i in up_ids:       # the invocation is over: it raised
-            evs2.append(("done", i, ("raise", sd.SYNC_MSG))); obs2.append([[], obs2[-1][1] if obs2 else False])
-        mc.append(("C01.ok", enc([sd.enc_cfg(cfg, tb), [sd.enc_event(x) for x in evs2], obs2, seen])))
-        meta.append((cfg, evs, obs))
-    for (cfg, evs, obs), m in zip(meta, run_model_parallel(mc)):
-        res.evaluations += 1; res.count("upload-handler-call:" + cfg["up_sync"]); res.nontriv(("upload-handler-call", str(cfg), str(evs)))
-        if m != enc(True):
+    impl = sd.run_cases(cases)
+    models = run_model_parallel([sd.model_case(c, e, tb) for (c, e), (o, d, tb, seen) in zip(cases, impl)])
+    mon = run_model_parallel([("C01.ok", enc([sd.enc_cfg(c, tb), [sd.enc_event(x) for x in e], [[a, ar] for a, ar in o], seen]))
+                              for (c, e), (o, d, tb, seen) in zip(cases, impl)])
+    for (cfg, evs), (obs, d, tb, seen), m, ok in zip(cases, impl, models, mon):
+        kind = sd.up_sync_of(cfg)[0]
+        what = "raises before returning an awaitable" if kind == "raise" else "returns a response object instead of an awaitable"
+        res.evaluations += 1; res.count("upload-handler-call:" + kind); res.nontriv(("upload-handler-call", str(cfg), str(evs)))
+        io = sd.enc_obs(obs)
+        if io != m:
+            res.disagreements.append({"driver": "server:upload-handler-call", "case": dict(describe(cfg, evs), upload_handler=what),
+                                      "model": pretty(dec(m)), "impl": pretty(dec(io))})
+        if ok != enc(True):
             res.violations.append({"clause": "C01.ok (an upload handler that raises, or returns, before producing an awaitable)", "signature": "C01:upload-handler-call",
-                                   "case": dict(describe(cfg, evs), upload_handler="raises before returning an awaitable" if cfg["up_sync"] == "raise" else "returns a response object instead of an awaitable"),
-                                   "trace": pretty(dec(sd.enc_obs(obs)))})
+                                   "case": dict(describe(cfg, evs), upload_handler=what),
+                                   "trace": pretty(dec(io))})
